@@ -65,6 +65,10 @@ def run(ctx: Ctx, rep: Report) -> None:
     from ..rules.adjoint import rule_adjoint
     rule_adjoint(ctx, rep, ('bqskit/passes/synthesis/',
                             'bqskit/utils/math.py'), 6)
+    # inverse sines / cosines of matrix-derived values are clipped (none in
+    # the passes today; the rule proves its matcher on a built-in example)
+    from ..rules.optrule import rule_nandom
+    rule_nandom(ctx, rep, ('bqskit/passes/', 'bqskit/utils/math.py'), 0)
     # a structural pass that re-wraps a block keeps the operation's params
     from ..rules.paramflow import rule_paramflow
     rule_paramflow(
